@@ -141,6 +141,7 @@ class Inliner:
         self.meta = {i: (0, (root_key,)) for i in range(len(self.rec["blocks"]))}
         self.done = []
         self.failed = []
+        self._at = 0
 
     def _callee_rec(self, name):
         key = self.fx._alias.get(name, name)
@@ -215,7 +216,7 @@ class Inliner:
             return len(rec["locals"]) - 1
 
         def new_block(stmts, term):
-            rec["blocks"].append({"cleanup": False, "stmts": stmts, "term": term})
+            rec["blocks"].append({"cleanup": False, "stmts": stmts, "term": term, "inl_at": b.get("inl_at", ln)})
             self.meta[len(rec["blocks"]) - 1] = meta
             return len(rec["blocks"]) - 1
         adt = "std::option::Option" if kind == "O" else "std::result::Result"
@@ -351,6 +352,8 @@ class Inliner:
         blocks = _shift(crec["blocks"], loff, boff)
         for j in range(len(blocks)):
             self.meta[boff + j] = (depth + 1, stack + (key,))
+            # where the code sits in the *root* function: the line of the (outermost) call that was replaced by it
+            blocks[j]["inl_at"] = self._at
         return loff, boff, blocks
 
     def _inline_call(self, i, key, crec, depth, stack):
@@ -360,6 +363,7 @@ class Inliner:
         args = t["args"]
         argc = crec["argc"]
         is_closure = crec.get("kind") == "Closure"
+        self._at = b.get("inl_at", t.get("ln", 0))
         loff, boff, blocks = self._append(key, crec, depth, stack)
         ln = t.get("ln", 0)
         binds = []
@@ -760,6 +764,7 @@ class Inliner:
             return
         cb = rec["blocks"][ctor[1]]
         cargs = ctor[2] if ctor[0] == "call" else ctor[3]
+        self._at = b.get("inl_at", t.get("ln", 0))
         loff, boff, blocks = self._append(key, crec, depth, stack)
         ln = t.get("ln", 0)
         caps = {}
